@@ -2,6 +2,7 @@ import PhysisModel.Base.Proto
 import PhysisModel.Base.ParserA
 import PhysisModel.Driver.C18Util
 import PhysisModel.Model.C18Dat
+import PhysisModel.Model.C18Arc
 namespace Physis.Driver.C18Arc
 open Physis Physis.Proto Physis.A Physis.Driver.C18
 
@@ -41,10 +42,42 @@ def dat (h off : String) : String :=
     else answer ("dat " ++ h ++ " " ++ off ++ " any") "ok"
   | _, _ => bad
 
+/-- a synthetic installation: `<hexpath>=<hexcontent>` / `<hexpath>=/`, comma separated, or `-` -/
+def treeOk (t : String) : Bool :=
+  t == "-" || (t.splitOn ",").all (fun e =>
+    match e.splitOn "=" with
+    | [p, c] => (Bytes.ofHexFast p).isSome && p != "-" && (c == "/" || (Bytes.ofHexFast c).isSome)
+    | _ => false)
+
 /-- `none` = not a case of this part -/
 def handle? (f : List String) : Option String :=
   match f with
   | ["dat", h, off] => some (dat h off)
+  | ["index", h] => some (asset C18Arc.index h)
+  | ["indexq", h, q] =>
+    match Bytes.ofHexFast h, Bytes.ofHexFast q with
+    | some w, some _ =>
+      -- a file that does not parse gives `none`; `exists` / `find_entry` / `calculate_hash` on a
+      -- parsed index never crash (`c18_index_hash_total`) and must agree with each other: `ok`
+      some (answer "=" (if (C18Arc.index w).isOk then "ok" else (C18Arc.index w).cls))
+    | _, _ => some bad
+  | ["repo", n] =>
+    match Bytes.ofHexFast n with
+    | some name =>
+      if name.isEmpty || name.contains 0x2F || name.contains 0 || name == [0x2E] || name == [0x2E, 0x2E]
+      then some bad
+      else some (answer "=" (C18Arc.expansionNumber name).cls)
+    | none => some bad
+  | ["gd", t, op, q] =>
+    -- GameData over a damaged installation: the specified answer is "no crash"; the components are
+    -- covered by `c18_index_*`, `c18_dat_*`, `c18_repo_*`
+    if treeOk t && (op == "exists" || op == "extract") && (Bytes.ofHexFast q).isSome
+    then some (answer "=" "ok") else some bad
+  | ["leak", n, h, off] =>
+    -- residual heap after n failed extractions does not grow with n (`c18_inflate_balanced`)
+    match n.toNat?, Bytes.ofHexFast h, off.toNat? with
+    | some k, some _, some _ => if k = 0 ∨ k > 10000 then some bad else some (answer "=" "leak:none")
+    | _, _, _ => some bad
   | _ => none
 
 end Physis.Driver.C18Arc
